@@ -40,6 +40,9 @@ CHECKS = {
  "C16": ("exhaustive gap x substitution enumeration over generated statements; exhaustive separator enumeration for ParseQuery",
          "(a) Every statement of the grammar model within 1 (thorough 2) structural deviations, in default rendering, x every inter-token gap that carries whitespace x each of 16 substitutions (6 whitespace forms incl. CR/CRLF, 4 line-comment forms, 6 block-comment forms): the variant must parse to the same AST as the base rendering. (b) ParseQuery on every join of 1-3 statements from a 12-statement pool with 8 semicolon-bearing and 4 semicolon-less separator forms and leading/trailing forms: the result must be exactly the statements parsed alone, in order, and a missing separator must be an error.",
          "Gaps are those the grammar model's lexical classification marks as carrying whitespace; base rendering must itself be accepted (C01).", "3/C16"),
+ "C13": ("exhaustive enumeration of accepted statements x every public operation with a panic oracle",
+         "Statements are the grammar-model corpus within the deviation bound plus an odd-shapes enumeration (16 function names x every argument list of <=2 (3) from 15 arguments x 5 positions, and ~50 hand-picked shapes: zero/negative intervals, fractional divisors, regex operators next to arithmetic, wildcards in odd places). On every accepted statement each of 7 statement-level operations and, for every SELECT inside it, 31 select-level operations (clone, walk, all rewrites, RewriteFields under 3 schemas, Reduce under 4 valuers, ConditionExpr, Eval, EvalType, names, intervals, SetTimeRange, …) runs on a freshly parsed copy with panics recovered.",
+         "Oracle is 'no panic' only. Rewriters that return nil for call arguments are caller misuse and not exercised.", "3/C13"),
 }
 ALL = ["C%02d" % i for i in range(1, 21)]
 NOT_YET = "check not built yet in this revision of /verif (work in progress; see DESIGN.md section 3 for the planned bounded-exhaustive check)"
